@@ -206,7 +206,9 @@ def start(argv):
         print(args.output_image, ": ", width, "x", height, "x", colors, sep="")
 
     # Grab VEF palette
-    pal = data[2:18]
+    # Palette registers hold 6 bits; ignore the unused high bits like the
+    # other decoders do so every pixel stays inside the 64 colour table.
+    pal = bytearray(entry & 0x3F for entry in data[2:18])
 
     image_data = []
 
